@@ -942,7 +942,10 @@ def handshake_cases(ctx):
     ctx.rng.shuffle(combos)
     with mock.patch.object(crypto.Prf, 'prf', lambda self, key, data: toy_prf(self.hash_size, key, data)):
         for (p, i, kl, dh) in combos[:n]:
-            obs = run_handshake(ctx, p, i, kl, dh, child_dh=ctx.rng.choice((None, 19)), proto=ctx.rng.choice((2, 3)))
+            obs, error = run_handshake(ctx, p, i, kl, dh, child_dh=ctx.rng.choice((None, 19)),
+                                       proto=ctx.rng.choice((2, 3)))
+            if error:
+                raise RuntimeError('handshake with the toy prf failed: ' + error)
             for o in obs:
                 cases.append(o)
     return cases
@@ -989,90 +992,100 @@ def run_handshake(ctx, p, i, kl, dh, child_dh=None, proto=3, rekey_ike=True):
         child_keyrings.append((ike_sa, is_initiator, _kr(keyring), child_sa.proposal.protocol_id))
 
     obs = []
-    with mock.patch('xfrm.Xfrm.send_recv'), wrap(crypto.MODPDH), wrap(crypto.ECDH), \
-            mock.patch('xfrm.Xfrm.create_child_sa', create_child_sa):
-        cfg = Configuration([ip1, ip2], conf)
-        a = ikesa.IkeSa(True, b'\0' * 8, cfg.get_ike_configuration(ip1, ip2), ip1, ip2)
-        b = ikesa.IkeSa(False, a.my_spi, cfg.get_ike_configuration(ip2, ip1), ip2, ip1)
-        tsi = TrafficSelector.from_network(ip_network('192.168.0.1/32'), 8765, TrafficSelector.IpProtocol.TCP)
-        tsr = TrafficSelector.from_network(ip_network('192.168.0.2/32'), 23, TrafficSelector.IpProtocol.TCP)
-        m1 = a.process_acquire(tsi, tsr, 1)
-        m2 = b.process_message(m1)
-        m3 = a.process_message(m2)
-        m4 = b.process_message(m3)
-        end = a.process_message(m4)
-        if end is not None or a.state != ikesa.IkeSa.State.ESTABLISHED or b.state != ikesa.IkeSa.State.ESTABLISHED \
-                or len(child_keyrings) != 2:
-            raise RuntimeError(f'handshake did not complete for suite {(p, i, kl, dh)}: {a.state} {b.state}')
-        q1, q2 = Message.parse(m1), Message.parse(m2)
-        ni = bytes(q1.get_payload(Payload.Type.NONCE).nonce)
-        nr = bytes(q2.get_payload(Payload.Type.NONCE).nonce)
-        spi_i, spi_r = bytes(q2.spi_i), bytes(q2.spi_r)
-        g_b, g_a = secrets[0][1], secrets[1][1]     # responder computes first
-        suite = [p, i, ENCR_AES_CBC, kl]
-        facts = dict(suite=suite, ni=ni, nr=nr, spi_i=spi_i, spi_r=spi_r, g=g_a, old=None, dh=dh)
-        if g_a != g_b:
-            raise RuntimeError('the two peers computed different DH secrets')
-        obs.append((['ike', suite + [1, 2, ni, nr, spi_i, spi_r, g_a, None]], 'e2e-ike-initiator',
-                    [_kr(a.ike_sa_keyring), _cr(a.my_crypto), _cr(a.peer_crypto)], facts))
-        obs.append((['ike', suite + [0, 1, ni, nr, spi_r, spi_i, g_b, None]], 'e2e-ike-responder',
-                    [_kr(b.ike_sa_keyring), _cr(b.my_crypto), _cr(b.peer_crypto)], facts))
-        # piggy-backed CHILD_SA: nonces of IKE_SA_INIT, never a DH secret
-        skd = bytes(a.ike_sa_keyring.sk_d)
-        csuite = [p, proto, i, ENCR_AES_CBC, kl]
-        cf = dict(prf=p, proto=proto, integ=i, kl=kl, ni=ni, nr=nr, g=None, skd=skd)
-        for (sa, is_init, kr, pr) in child_keyrings:
-            role = 2 if sa is a else 1
-            obs.append((['child', csuite + [role, ni, nr, None, skd]], 'e2e-child-auth', kr, cf))
-        # CREATE_CHILD_SA for a second CHILD_SA (with KE payloads when the protect entry names a DH group)
-        del child_keyrings[:]
-        nsec = len(secrets)
-        c1 = a.process_acquire(tsi, tsr, 1)
-        c2 = b.process_message(c1)
-        end = a.process_message(c2)
-        if end is not None or len(child_keyrings) != 2:
-            raise RuntimeError(f'CREATE_CHILD_SA did not complete for suite {(p, i, kl, dh, child_dh)}')
-        r1 = Message.parse(c1, crypto=a.my_crypto)
-        r2 = Message.parse(c2, crypto=b.my_crypto)
-        cni = bytes(r1.get_payload(Payload.Type.NONCE, True).nonce)
-        cnr = bytes(r2.get_payload(Payload.Type.NONCE, True).nonce)
-        cg = None
-        if child_dh:
-            if len(secrets) != nsec + 2 or secrets[nsec][1] != secrets[nsec + 1][1]:
-                raise RuntimeError('CREATE_CHILD_SA with KE: DH secrets missing or different')
-            cg = secrets[nsec][1]
-        elif len(secrets) != nsec:
-            raise RuntimeError('CREATE_CHILD_SA without DH transform computed a DH secret')
-        cf = dict(prf=p, proto=proto, integ=i, kl=kl, ni=cni, nr=cnr, g=cg, skd=skd)
-        for (sa, is_init, kr, pr) in child_keyrings:
-            role = 2 if sa is a else 1
-            obs.append((['child', csuite + [role, cni, cnr, cg, skd]], 'e2e-child-create', kr, cf))
-        # IKE_SA rekey initiated by the original responder (roles swap: b is the initiator of the new IKE_SA)
-        if rekey_ike:
+    error = None
+    try:
+        with mock.patch('xfrm.Xfrm.send_recv'), wrap(crypto.MODPDH), wrap(crypto.ECDH), \
+                mock.patch('xfrm.Xfrm.create_child_sa', create_child_sa):
+            cfg = Configuration([ip1, ip2], conf)
+            a = ikesa.IkeSa(True, b'\0' * 8, cfg.get_ike_configuration(ip1, ip2), ip1, ip2)
+            b = ikesa.IkeSa(False, a.my_spi, cfg.get_ike_configuration(ip2, ip1), ip2, ip1)
+            tsi = TrafficSelector.from_network(ip_network('192.168.0.1/32'), 8765, TrafficSelector.IpProtocol.TCP)
+            tsr = TrafficSelector.from_network(ip_network('192.168.0.2/32'), 23, TrafficSelector.IpProtocol.TCP)
+            suite = [p, i, ENCR_AES_CBC, kl]
+            m1 = a.process_acquire(tsi, tsr, 1)
+            m2 = b.process_message(m1)
+            # the responder has its keys now
+            q1, q2 = Message.parse(m1), Message.parse(m2)
+            if not q2.get_payloads(Payload.Type.NONCE):
+                raise RuntimeError(f'IKE_SA_INIT was refused for suite {(p, i, kl, dh)}')
+            ni = bytes(q1.get_payload(Payload.Type.NONCE).nonce)
+            nr = bytes(q2.get_payload(Payload.Type.NONCE).nonce)
+            spi_i, spi_r = bytes(q2.spi_i), bytes(q2.spi_r)
+            g_b = secrets[0][1]
+            facts = dict(suite=suite, ni=ni, nr=nr, spi_i=spi_i, spi_r=spi_r, g=g_b, old=None, dh=dh)
+            obs.append((['ike', suite + [0, 1, ni, nr, spi_r, spi_i, g_b, None]], 'e2e-ike-responder',
+                        [_kr(b.ike_sa_keyring), _cr(b.my_crypto), _cr(b.peer_crypto)], facts))
+            m3 = a.process_message(m2)
+            g_a = secrets[1][1]
+            facts = dict(facts, g=g_a)
+            obs.append((['ike', suite + [1, 2, ni, nr, spi_i, spi_r, g_a, None]], 'e2e-ike-initiator',
+                        [_kr(a.ike_sa_keyring), _cr(a.my_crypto), _cr(a.peer_crypto)], facts))
+            if g_a != g_b:
+                raise RuntimeError('the two peers computed different DH secrets')
+            m4 = b.process_message(m3)
+            end = a.process_message(m4)
+            if end is not None or a.state != ikesa.IkeSa.State.ESTABLISHED or b.state != ikesa.IkeSa.State.ESTABLISHED \
+                    or len(child_keyrings) != 2:
+                raise RuntimeError(f'handshake did not complete for suite {(p, i, kl, dh)}: {a.state} {b.state}')
+            # piggy-backed CHILD_SA: nonces of IKE_SA_INIT, never a DH secret
+            skd = bytes(a.ike_sa_keyring.sk_d)
+            csuite = [p, proto, i, ENCR_AES_CBC, kl]
+            cf = dict(prf=p, proto=proto, integ=i, kl=kl, ni=ni, nr=nr, g=None, skd=skd)
+            for (sa, is_init, kr, pr) in child_keyrings:
+                role = 2 if sa is a else 1
+                obs.append((['child', csuite + [role, ni, nr, None, skd]], 'e2e-child-auth', kr, cf))
+            # CREATE_CHILD_SA for a second CHILD_SA (with KE payloads when the protect entry names a DH group)
+            del child_keyrings[:]
             nsec = len(secrets)
-            b.rekey_ike_sa_at = 0
-            k1 = b.check_rekey_ike_sa_timer()
-            k2 = a.process_message(k1)
-            k3 = b.process_message(k2)
-            if b.new_ike_sa is None or a.new_ike_sa is None or b.new_ike_sa.ike_sa_keyring is None \
-                    or a.new_ike_sa.ike_sa_keyring is None or len(secrets) != nsec + 2:
-                raise RuntimeError(f'IKE_SA rekey did not complete for suite {(p, i, kl, dh)}')
-            r1 = Message.parse(k1, crypto=b.my_crypto)
-            r2 = Message.parse(k2, crypto=a.my_crypto)
-            kni = bytes(r1.get_payload(Payload.Type.NONCE, True).nonce)
-            knr = bytes(r2.get_payload(Payload.Type.NONCE, True).nonce)
-            nspi_i = bytes(r1.get_payload(Payload.Type.SA, True).proposals[0].spi)
-            nspi_r = bytes(r2.get_payload(Payload.Type.SA, True).proposals[0].spi)
-            kg = secrets[nsec][1]
-            if kg != secrets[nsec + 1][1]:
-                raise RuntimeError('rekey: the two peers computed different DH secrets')
-            facts = dict(suite=suite, ni=kni, nr=knr, spi_i=nspi_i, spi_r=nspi_r, g=kg, old=skd, dh=dh)
-            nb, na = b.new_ike_sa, a.new_ike_sa
-            obs.append((['ike', suite + [1, 2, kni, knr, nspi_i, nspi_r, kg, skd]], 'e2e-rekey-initiator',
-                        [_kr(nb.ike_sa_keyring), _cr(nb.my_crypto), _cr(nb.peer_crypto)], facts))
-            obs.append((['ike', suite + [0, 1, kni, knr, nspi_r, nspi_i, kg, skd]], 'e2e-rekey-responder',
-                        [_kr(na.ike_sa_keyring), _cr(na.my_crypto), _cr(na.peer_crypto)], facts))
-    return obs
+            c1 = a.process_acquire(tsi, tsr, 1)
+            c2 = b.process_message(c1)
+            end = a.process_message(c2)
+            if end is not None or len(child_keyrings) != 2:
+                raise RuntimeError(f'CREATE_CHILD_SA did not complete for suite {(p, i, kl, dh, child_dh)}')
+            r1 = Message.parse(c1, crypto=a.my_crypto)
+            r2 = Message.parse(c2, crypto=b.my_crypto)
+            cni = bytes(r1.get_payload(Payload.Type.NONCE, True).nonce)
+            cnr = bytes(r2.get_payload(Payload.Type.NONCE, True).nonce)
+            cg = None
+            if child_dh:
+                if len(secrets) != nsec + 2 or secrets[nsec][1] != secrets[nsec + 1][1]:
+                    raise RuntimeError('CREATE_CHILD_SA with KE: DH secrets missing or different')
+                cg = secrets[nsec][1]
+            elif len(secrets) != nsec:
+                raise RuntimeError('CREATE_CHILD_SA without DH transform computed a DH secret')
+            cf = dict(prf=p, proto=proto, integ=i, kl=kl, ni=cni, nr=cnr, g=cg, skd=skd)
+            for (sa, is_init, kr, pr) in child_keyrings:
+                role = 2 if sa is a else 1
+                obs.append((['child', csuite + [role, cni, cnr, cg, skd]], 'e2e-child-create', kr, cf))
+            # IKE_SA rekey initiated by the original responder (roles swap: b is the initiator of the new IKE_SA)
+            if rekey_ike:
+                nsec = len(secrets)
+                b.rekey_ike_sa_at = 0
+                k1 = b.check_rekey_ike_sa_timer()
+                k2 = a.process_message(k1)
+                k3 = b.process_message(k2)
+                if b.new_ike_sa is None or a.new_ike_sa is None or b.new_ike_sa.ike_sa_keyring is None \
+                        or a.new_ike_sa.ike_sa_keyring is None or len(secrets) != nsec + 2:
+                    raise RuntimeError(f'IKE_SA rekey did not complete for suite {(p, i, kl, dh)}')
+                r1 = Message.parse(k1, crypto=b.my_crypto)
+                r2 = Message.parse(k2, crypto=a.my_crypto)
+                kni = bytes(r1.get_payload(Payload.Type.NONCE, True).nonce)
+                knr = bytes(r2.get_payload(Payload.Type.NONCE, True).nonce)
+                nspi_i = bytes(r1.get_payload(Payload.Type.SA, True).proposals[0].spi)
+                nspi_r = bytes(r2.get_payload(Payload.Type.SA, True).proposals[0].spi)
+                kg = secrets[nsec][1]
+                if kg != secrets[nsec + 1][1]:
+                    raise RuntimeError('rekey: the two peers computed different DH secrets')
+                facts = dict(suite=suite, ni=kni, nr=knr, spi_i=nspi_i, spi_r=nspi_r, g=kg, old=skd, dh=dh)
+                nb, na = b.new_ike_sa, a.new_ike_sa
+                obs.append((['ike', suite + [1, 2, kni, knr, nspi_i, nspi_r, kg, skd]], 'e2e-rekey-initiator',
+                            [_kr(nb.ike_sa_keyring), _cr(nb.my_crypto), _cr(nb.peer_crypto)], facts))
+                obs.append((['ike', suite + [0, 1, kni, knr, nspi_r, nspi_i, kg, skd]], 'e2e-rekey-responder',
+                            [_kr(na.ike_sa_keyring), _cr(na.my_crypto), _cr(na.peer_crypto)], facts))
+    except Exception:
+        import traceback
+        error = traceback.format_exc()[-700:]
+    return obs, error
 
 
 def correspond(ctx):
@@ -1087,6 +1100,32 @@ def correspond(ctx):
         nontrivial = not (isinstance(out, list) and out[:1] == ['raise'])
         ctx.case([kind, repr(a)], nontrivial=nontrivial, sample=(kind in ('ike', 'child') and len(ctx.samples) < 3))
         ctx.count(kind + ('' if nontrivial else ':raises'))
+    # DH public values of freshly generated real keys against the model's fixed-width encoding
+    import warnings
+    import crypto
+    with warnings.catch_warnings():
+        warnings.simplefilter('ignore')
+        for g in (14, 15, 16, 17, 18, 19, 20, 21):
+            for _ in range(1 if ctx.quick() else 6):
+                d = crypto.DiffieHellman.from_group(g)
+                if isinstance(d, crypto.MODPDH):
+                    nums = [d._private_key.public_key().public_numbers().y, 0]
+                else:
+                    pn = d._private_key.public_key().public_numbers()
+                    nums = [pn.x, pn.y]
+                cases.append((['dh', [g] + nums], bytes(d.public_key)))
+                meta.append(('dh-public', (g,)))
+                cases.append((['dh', [g]], d.key_len))
+                meta.append(('dh-key-len', (g,)))
+                ctx.case(['dh-public', g, bytes(d.public_key).hex()], nontrivial=True)
+                ctx.count('dh-public')
+    try:
+        crypto.DiffieHellman.from_group(5)
+        out5 = 'no exception'
+    except Exception as ex:
+        out5 = exc_name(ex)
+    cases.append((['dh', [5]], out5))
+    meta.append(('dh-key-len', (5,)))
     for inp, kind, out, facts in handshake_cases(ctx):
         cases.append((inp, out))
         meta.append((kind, inp))
@@ -1354,12 +1393,7 @@ def check_dh_group(ctx, g, rounds=1):
 def check_e2e(ctx, p, i, kl, dh, child_dh, proto):
     """a real handshake with the real HMAC; every key the daemon derived against the independent implementation"""
     fails = []
-    try:
-        obs = run_handshake(ctx, p, i, kl, dh, child_dh=child_dh, proto=proto)
-    except Exception:
-        import traceback
-        return [Failure('property', 'keys:handshake-failed', traceback.format_exc()[-800:],
-                        {'kind': 'e2e', 'p': p, 'i': i, 'kl': kl, 'dh': dh, 'child_dh': child_dh, 'proto': proto})]
+    obs, error = run_handshake(ctx, p, i, kl, dh, child_dh=child_dh, proto=proto)
     rep = {'kind': 'e2e', 'p': p, 'i': i, 'kl': kl, 'dh': dh, 'child_dh': child_dh, 'proto': proto}
     for inp, kind, got, f in obs:
         ctx.case([kind, repr(inp)], nontrivial=True)
@@ -1379,6 +1413,10 @@ def check_e2e(ctx, p, i, kl, dh, child_dh, proto):
                                  f'{kind} (prf={p} integ={i} aes{kl} dh={dh} child_dh={child_dh} proto={proto}): '
                                  f'daemon derived {_show(got)} but the RFC gives {_show(want)} from the nonces, SPIs '
                                  f'and DH secret of the exchange', rep))
+    if error and not fails:
+        fails.append(Failure('property', 'keys:handshake-failed',
+                             f'handshake (prf={p} integ={i} aes{kl} dh={dh} child_dh={child_dh} proto={proto}) did not '
+                             f'complete although every key derived so far equals the RFC: {error}', rep))
     return fails
 
 
@@ -1501,6 +1539,41 @@ ALLOWED_AXIOMS = (
 )
 
 CHECK = core.Check(
-    'C04', CLUSTER, ['Props/C04.v', 'Props/C04_primes.v'], translate=translate, correspond=correspond, oracle=oracle, replay=replay,
-    deps=('lib',), allowed_axioms=ALLOWED_AXIOMS,
+    'C04', CLUSTER, ['Props/C04.v', 'Props/C04_primes.v'], translate=translate, correspond=correspond, oracle=oracle,
+    replay=replay, deps=('lib',), allowed_axioms=ALLOWED_AXIOMS,
+    rule='correspondence (toy prf patched into crypto.Prf.prf, sizes from the real classes): prf+ for every output '
+         'length 0..400 (quick: 0..69 plus a seeded sample) and around the 255-block limit for the 3 PRFs; '
+         'generate_ike_sa_key_material for 3 PRF x 3 INTEG x 2 AES key lengths x initial/rekey with random nonces of '
+         '16..256 octets, 8-octet SPIs and secrets with 0..5 leading zero octets; generate_child_sa_key_material for '
+         '3 PRF x 3 INTEG x (ESP-128, ESP-256, AH) x with/without DH secret; unsupported ids and KEY_LEN values; the '
+         'size properties of 200 (prf, integ, encr, keylen) combinations; fresh public values of the 8 DH groups; '
+         'whole handshakes (IKE_SA_INIT, IKE_AUTH, CREATE_CHILD_SA, IKE_SA rekey) between two real IkeSa objects for '
+         'seeded suites, whose observed nonces/SPIs/DH secrets are fed to the model of the call sites. oracle (real '
+         'HMAC): independent RFC 7296 2.13-2.18 implementation against Prf.prfplus (lengths 1..420), both '
+         'key-material functions for every suite, handshakes for all 8 DH groups, the primes against the RFC 3526 '
+         'formula with an integer Machin pi, curve names and fixed widths. A case is non-trivial when the '
+         'implementation returns keys (not an exception); distinct by content hash',
+    trusted_base=[
+        'Coq 8.16.1 kernel (coqc, vm_compute; no native_compute)',
+        'coq-interval tactic and, through it, the standard-library axioms printed for C04_modp_primes only: '
+        'ClassicalDedekindReals.sig_forall_dec, ClassicalDedekindReals.sig_not_dec, Classical_Prop.classic, '
+        'FunctionalExtensionality.functional_extensionality_dep, the PrimInt63 primitive integer type and operations '
+        'and their Uint63.*_spec / of_to_Z / eqb_refl / eqb_correct axioms; the 14 theorems of Props/C04.v are closed '
+        'under the global context (re-checked on every run)',
+        'translator py/props/c04.py (tables, size expressions, prf+ loop constants and block expression, SKEYSEED / '
+        'prf+ seed / length expressions, unpack formats, Keyring and Crypto field wiring, role conditionals, call-site '
+        'arguments -> Gen/CryptoTables.v, Gen/ModpGroups.v, Gen/ConfigSuites.v, Gen/KeyMaterial.v); the loop skeleton '
+        'of prfplus and the statement skeleton of the two methods are matched structurally (fail closed)',
+        'hand-written control structure of KeySched.v (loop, dict lookups, Cipher.__init__ checks), validated by the '
+        'correspondence runs',
+        'hashlib digest sizes, cryptography AES key_sizes/block_size and curve key_size/name are read from the '
+        'installed libraries at translation time',
+        'HMAC, OpenSSL DH/ECDH arithmetic and struct.unpack (exercised by the oracle, not modelled)',
+        'reading of RFC 7296 2.13-2.18, RFC 4868/2404/3602 sizes, RFC 3526 formula, RFC 5903 in Rfc*.v'],
+    assumptions=[
+        'hmac h k d always returns digest_size h octets (true of HMAC; the only hypothesis about the primitive)',
+        'suites are those of the RFC tables with an AES Key Length attribute of 128/192/256 bits (C04_config_suites_'
+        'covered: every suite a configuration file can name is one of them)',
+        'the old SK_d given to a rekey is not empty (it has the PRF key length, C04_ike_keys)',
+        'DH public numbers lie in [0, p) resp. [0, 2^bits): that they are the right numbers is OpenSSL\'s job'],
 )
